@@ -1,7 +1,8 @@
 #!/bin/bash
 # selftest/run.sh [filter]: every patch under selftest/mutants must be DETECTED by the check of the
 # property in its file name (revert-<hash>: the property of the `fixed:` line with that hash); every
-# patch under selftest/equivalent (behaviour-preserving refactors) must NOT raise a violation; every
+# patch under selftest/equivalent (behaviour-preserving refactors, incl. the 216 of rounds e and f; the self-test runs the
+# check of the property in the file name, tools/runall.py runs all 36) must NOT raise a violation; every
 # stored seed under seeded/<id>-*/patch.diff must be DETECTED by the check of <id> when that check exists.
 # Runs up to 8 scratch copies in parallel (each under /tmp, removed when done).
 cd "$(dirname "$0")/.."
